@@ -19,15 +19,20 @@ CHECKS = {
   text="Proof (Lean 4) over exact rationals: if ref = a x + b on the jointly valid pixels of a window, gain-offset OLS returns "
        "exactly (a, b), gain returns a (b = 0), gain-blk-offset returns (a, b) under the std/percentile hypotheses, R2 = 1; a "
        "normalised weighted-mean resampler keeps constants and commutes with affine maps; hence the up-sampled parameters are "
-       "(a, b) and the corrected value at a source pixel is a src + b at its own location (10 theorems). Tied to the code by real "
+       "(a, b) and the corrected value at a source pixel is a src + b at its own location (11 theorems). Tied to the code by real "
        "fusions of pairs constructed with the model's exact `average` resampler (ratios 1..4 incl. 5:2, 20:9, sub-pixel offsets, "
        "nodata borders/holes, NaN / numeric / internal-mask nodata, 1-3 bands with band-specific (a,b), three models, 1..64 blocks, "
        "threads 1/2/4, both processing grids): |corrected - (a src + b)| <= 2e-4 range at every valid source pixel, "
-       "RasterCompare RMSE ~ 0; and by a direct differential run of RasterArray.reproject against the resampling model.",
+       "RasterCompare RMSE ~ 0; by a direct differential run of RasterArray.reproject against the resampling model; and by a "
+       "whole-image oracle: RasterFuse.process on unrelated random source/reference images against the executable model of the "
+       "complete reference-grid pipeline (Model/FuseImage.lean: average down-sampling, kernel fit, nearest/bilinear up-sampling, "
+       "apply) - validity exact, values to a float32 budget.",
   note="GDAL warp = normalised weighted mean (average: overlap areas; nearest/bilinear: centre rule) is modelled and measured, "
        "not proved. Degenerate windows (single valid pixel / constant source under gain-offset) are excluded by hypothesis "
        "(partial). In decimal geometry value oracles avoid exactly coinciding pixel edges (GDAL float noise changes validity "
-       "there); the dyadic family covers them exactly.",
+       "there, also on dyadic grids whose pixel size is not a power of two: GDAL multiplies by an inexact inverse geotransform); "
+       "dyadic grids with power-of-two pixels cover them exactly. The whole-image pipeline is an executable model that is "
+       "differentially tested; the theorems are per pixel.",
   tech="Lean 4 proof (algebra over Q, list induction) + constructed-oracle differential runs", ref='7 C02'),
  'C03': dict(
   text="Proof (Lean 4): a corrected pixel is valid only if the source pixel is, unconditionally, on both processing grids "
@@ -42,10 +47,11 @@ CHECKS = {
   tech="Lean 4 proof (order/field facts over Q, list induction) + differential mask comparison on real fusions", ref='7 C03'),
  'C04': dict(
   text="Proof (Lean 4) on the block fan-out machine (4 locks, per-block straight-line program, any number of threads, any "
-       "scheduler): interim set - locks are never nested, every io step is bracketed by acq/rel of its own resource (both program "
-       "variants), single-write semantics; the full set (lock invariant over all schedules, mutual exclusion, progress, "
-       "termination, job accounting, order- and schedule-independence of disjoint writes) is stated in DESIGN.md and in "
-       "progress. Tied to the code by running the real RasterFuse.process under a controlled scheduler that replaces the executor, "
+       "scheduler): the lock invariant holds in every reachable state of every schedule, mutual exclusion, every file access "
+       "under the file's own lock, locks never nested, no deadlock (some thread can always step until all jobs are done), "
+       "termination (a measure decreases with every step), each block written at most once per file, disjoint writes commute, and "
+       "every complete run writes every block's corrected and parameter window exactly once whatever the schedule "
+       "(schedule_independent) (9 theorems). Tied to the code by running the real RasterFuse.process under a controlled scheduler that replaces the executor, "
        "the four locks and the four datasets from outside: 30 (quick) / 1800 (thorough) seeded schedules (random, stall-first, "
        "round-robin, starve, sticky, switch; 2-4 workers); every observed trace is replayed and accepted by the Lean machine, no "
        "dataset call happens without its lock, outputs (pixels, masks, tags, descriptions; NaN and internal-mask outputs with "
@@ -61,7 +67,8 @@ CHECKS = {
        "(fit_depends_only_on_window, via a crop lemma on window lists); bilinear/nearest support stays within one pixel of "
        "the centre pixel and has non-negative normalised weights (5 theorems). Tied to the code by pairs of real fusions (1 block vs "
        "1..6 halvings): parameter images identical (bit-identical on dyadic integer-exact data), corrected identical for nearest/"
-       "bilinear/source grid, cubic-spline differences confined to one processing pixel of a seam; and overlap_for_kernel vs model.",
+       "bilinear/source grid, cubic-spline differences confined to one processing pixel of a seam; overlap_for_kernel vs model; and "
+       "multi-block real fusions against the whole-image model (Model/FuseImage.lean), which has no blocks at all.",
   note="gain-blk-offset and in-painting have a per-block term and are excluded (partial), as the property states. The confinement "
        "for 4x4 kernels is measured, not proved.",
   tech="Lean 4 proof (omega on windows, list congruence) + partition-pair differential runs", ref='7 C05'),
@@ -71,8 +78,9 @@ CHECKS = {
        "which contains the source image, input windows are output windows grown by the overlap, paired windows cover the same "
        "ground in whole pixels (15 theorems, Props/C06.lean). Tied to the code by a differential run of "
        "RasterPairReader.block_pairs() against the model's executable block generator on ~200 (quick) / 4000 (thorough) "
-       "geometries, exact on dyadic geometry, tie-tolerant on decimal geometry, plus the property's own predicates "
-       "(cover count of every source pixel = 1) on the code's windows.",
+       "geometries, exact on dyadic grids with power-of-two pixels, tie-tolerant (only at exact ties, computed in integers) where "
+       "the pixel arithmetic is inexact, plus the property's own predicates (cover count of every source pixel = 1, input "
+       "windows contain output windows) on the code's windows, also for source and reference in different CRSs.",
   note="Float behaviour of rasterio's affine maps is outside the proof: the proof needs both neighbours to derive a shared "
        "boundary by the same function of the same integer corner; that obligation is checked on the real code per case. "
        "Block shape (_auto_block_shape) is read from the code and passed to the model (theorems hold for every s).",
@@ -96,7 +104,8 @@ CHECKS = {
        "(encodings_agree); blocks that agree on masks and on jointly valid values give identical fits at every pixel for all "
        "models, and identical inputs to the block normalisation (fit_congr_on_mask, blocknorm_congr_on_mask) (6 theorems). Tied to the "
        "code by writing one logical pair in 4 encodings x hidden values (0, 3.4e38, -1e30, NaN, random; uint8 alpha/mask/nodata) "
-       "and requiring bit-identical corrected image, parameter image and comparison statistics; and by from_rio_dataset vs readPx.",
+       "and requiring bit-identical corrected image (float32/NaN, integer types with non-zero nodata, float with numeric nodata "
+       "outputs), parameter image and comparison statistics; and by from_rio_dataset vs readPx.",
   note="How GDAL exposes masks (alpha honoured only for 1/3-band Byte/UInt16 + alpha) is GDAL's rule; WarpedVRT mask handling "
        "is not modelled.",
   tech="Lean 4 proof (case analysis, list congruence) + bit-identity differential runs across encodings", ref='7 C08'),
@@ -118,7 +127,7 @@ CHECKS = {
        "for writing, then content that depends on inputs+configuration only): without overwrite an existing output means "
        "FileExistsError and an unchanged file system; paths other than the two outputs are untouched by every call and every "
        "history; no other files appear; a successful call leaves exactly its configuration's content; after any history the "
-       "outputs equal those of the same call on an empty directory (8 theorems). Tied to the code by histories of 1-4 calls (one "
+       "outputs equal those of the same call on an empty directory (9 theorems). Tied to the code by histories of 1-4 calls (one "
        "object / fresh objects / CLI / mixed; str and Path; overwrite on/off; with/without parameter image; pre-existing garbage "
        "or older outputs): outcomes and listings vs the machine, bytes+mtime of untouched files, decoded outputs vs fresh runs.",
   note="GDAL side-car files (.aux.xml, .msk, .ovr) are whitelisted. Content identity is the decoded raster (pixels, masks, "
@@ -128,7 +137,8 @@ CHECKS = {
   text="Proof (Lean 4) over exact rationals: block sums are additive over any split of the pixels, accumulating the blocks of any "
        "partition gives the whole-image sums, in any completion order (sums_additive_over_partition, fold_perm); N = number of "
        "jointly valid processing pixels; RMSE^2 = mean squared difference; r2 = squared Pearson correlation (centred-sum identity); "
-       "rRMSE^2 = RMSE^2/mean(ref)^2 (12 theorems). Tied to the code by RasterCompare.process on integer-valued pairs with holes (model "
+       "rRMSE^2 = RMSE^2/mean(ref)^2 (15 theorems). Tied to the code by RasterCompare.process on integer-valued pairs with holes in both images, invalid pixels encoded as NaN / "
+       "numeric nodata / internal mask (model "
        "resampler + cmpstats give the exact values): N exact, r2/RMSE/rRMSE to 5e-5, 3 partitions x threads 1/2/4 must agree, Mean "
        "row = band average, CLI JSON = API.",
   note="Known findings (open): D7 forced finer processing grid with a non-nearest kernel (block-edge effects), D10 duplicate band "
@@ -139,7 +149,8 @@ CHECKS = {
   text="Proof (Lean 4): tile accumulators are additive, tiling- and completion-order-invariant (tile_partition_invariant, "
        "pacc_fold_perm); skipping empty tiles is sound, choosing them from band 1 is not (checked witness, D6); mean = sum/n; "
        "one-pass variance = population variance; min/max are attained bounds; in-paint percentage = 100 #(R2<t)/n; R2 bands are the "
-       "last third (17 theorems). Tied to the code by ParamStats.stats on synthetic parameter images with band-specific validity and "
+       "last third (20 theorems). Tied to the code by ParamStats.stats on synthetic parameter images with band-specific validity, bands of mixed sign / all "
+       "negative / all positive / constant values, and "
        "on images written by real fusions, each with 2 of 5 tilings and threads 1/2/4: every figure vs the exact model (pstats), "
        "figures equal across tilings, CLI JSON = API.",
   note="Bands holding +-inf (R2 with zero TSS) are outside the rational model and skipped in the value comparison. std is "
@@ -185,8 +196,11 @@ CHECKS = {
        "a checked counterexample for the originally coded predicate (D2), and the orientation/CRS decision table of "
        "same_orientation_crs (decide over all 32 rows). Tied to the code by constructing RasterFuse/RasterCompare on ~300 (quick) "
        "/ 6000 (thorough) generated placements (inside, flush, overhang by 1 unit..many pixels per side; both resolution orders; "
-       "dyadic/decimal; south-up storage) and by driving the real same_orientation_crs through all table rows.",
-  note="Cross-CRS footprints are not modelled (WarpedVRT geometry is GDAL's); float noise of flush placements in decimal "
+       "dyadic/decimal; south-up storage), by driving the real same_orientation_crs through all table rows, and by real placements "
+       "of a source in another CRS (EPSG/EPSG, two custom CRSs without EPSG codes, mixed) well inside / straddling each edge / far "
+       "outside the reference.",
+  note="Known finding D15 (open): across CRSs the code tests against the bounding box of the re-projected reference. "
+       "Cross-CRS footprints are not modelled (PROJ/WarpedVRT geometry); float noise of flush placements in decimal "
        "geometry is absorbed by the 1e-6 px tolerance of the repaired predicate, which the exact model ignores.",
   tech="Lean 4 proof (linear integer arithmetic, decide over a finite table) + differential correspondence run", ref='7 C16'),
  'C17': dict(
@@ -206,9 +220,10 @@ CHECKS = {
        "a driver change; flips are involutive; every model/block configuration key reaches the metadata call (generated tables); "
        "and the band round trip: with the matched reference bands' wavelengths copied to the corrected bands and pairwise distinct "
        "reference wavelengths, matching the corrected image against the same reference selects exactly the bands the fusion used "
-       "(roundtrip_bands, a corollary of C15's match_nearest) (9 theorems). Tied to the code by real fusions: corrected grid = "
+       "(roundtrip_bands, a corollary of C15's match_nearest) (10 theorems). Tied to the code by real fusions: corrected grid = "
        "north-up source grid, band count/order/descriptions/wavelength tags of the matched reference bands, parameter image on the "
-       "processing grid (model procres), FUSE_* tags complete and equal to the effective settings, south-up storage of source/"
+       "processing grid, which under auto is the coarser image - also for degree-sized pixels (EPSG:4326 stratum) (model "
+       "procres), FUSE_* tags complete and equal to the effective settings, south-up storage of source/"
        "reference/both bit-identical (dyadic geometry), RasterCompare(corrected, reference) re-selects the fusion's bands; "
        "combine_profiles vs the model on generated profiles.",
   note="Partial: WarpedVRT (north-up re-projection, CRS changes), rotated and cross-CRS inputs are exercised, not modelled; "
@@ -222,17 +237,22 @@ CHECKS = {
        "parameter file name, nodata callback, default creation options (13 theorems). Tied to the code by CliRunner runs of "
        "`homonim fuse` where every option is independently default / flag / file / both (falsy flag values included), compared "
        "with the API call using the model's merged settings: corrected and parameter images pixel-, mask-, description- and "
-       "tag-identical; file names vs the model; unknown keys rejected; compare/stats JSON vs API in C11/C12.",
+       "tag-identical; file names vs the model; unknown keys rejected; every RasterCompare.process call made by `homonim compare` and "
+       "by `homonim fuse --compare [FILE]` (options from flags or the configuration file) recorded and compared with the API call "
+       "with the same settings (grid, bands, statistics, --output JSON); stats JSON vs API in C12.",
   note="Partial: click's own parsing and type conversion are trusted; values that come from the YAML file bypass click's "
        "callbacks (e.g. a kernel shape arrives as a list), which the harness mirrors.",
   tech="Lean 4 proof + translator-generated tables (decide) + CLI-vs-API differential runs", ref='7 C19'),
  'C20': dict(
   text="Proof (Lean 4): for every integer window with non-negative size the boundless read succeeds (read_total) and returns "
        "the image pixel at its own location where the window overlaps the image and nodata elsewhere (read_spec), with the "
-       "window's geo-referencing (read_transform); writes store the block's pixels on window ∩ dataset and leave the rest "
-       "(write_spec), write-then-read round trip, and the corrected block written by fuse always contains its clipped output "
-       "window (fuse_write_contained_*); checked counterexample for the originally coded window logic (D3). Tied to the code by "
-       "~3500 reads (exhaustive per-axis windows, 4 dtype/nodata/mask/band variants) and ~200 writes compared pixel by pixel.",
+       "window's geo-referencing (read_transform); writes store the block's pixels (values and validity: the pixel type is "
+       "arbitrary) on window ∩ dataset and leave the rest (write_spec, write2_spec), a window that misses the dataset is a no-op "
+       "and never an error (write2_outside_noop), every write of a block that contains its window succeeds wherever the window "
+       "lies (write2_total_of_block_contains) and every block of block_pairs does contain it (fuse_write_contained_*), "
+       "write-then-read round trip; checked counterexamples for the originally coded read and write logic (D3, D13) (20 theorems). "
+       "Tied to the code by ~4000 reads (exhaustive per-axis windows, 4 dtype/nodata/mask/band variants), ~200 writes and 50 "
+       "writes of blocks with invalid pixels into internal-mask / numeric-nodata datasets, compared pixel by pixel.",
   note="GDAL read/write of an in-range window is trusted to transfer pixels faithfully; dtype conversion on write belongs to C13.",
   tech="Lean 4 proof (omega over integer windows, list extensionality) + exhaustive small-window differential run", ref='7 C20'),
 }
